@@ -345,8 +345,13 @@ class ExpressionParser:
             # collect backend-specific function override for this operation, if any
             label = expr.func.__name__
             try:
-                v_tmp = self.cg.get_var(func_args[0].name)
-                op = self.cg.get_op(label, shape=v_tmp.shape, dtype=v_tmp.dtype)
+                if func_args:
+                    v_tmp = self.cg.get_var(func_args[0].name)
+                    op = self.cg.get_op(label, shape=v_tmp.shape, dtype=v_tmp.dtype)
+                else:
+                    # all arguments are numeric constants (e.g. `sigmoid(0.5)`): the backend function is still needed
+                    # to evaluate the call
+                    op = self.cg.get_op(label)
                 backend_funcs = {label: op['func']}
             except (KeyError, IndexError):
                 backend_funcs = {}
